@@ -253,7 +253,7 @@ def pack_dataclass(spec: ValueSpec) -> Optional[Expression]:
             builder = spec.builder.__class__(
                 spec.origin_type,
                 type_args,
-                dialect=spec.builder.dialect,
+                dialect=None,
                 format_name=spec.builder.format_name,
                 default_dialect=spec.builder.default_dialect,
                 attrs=method_loc,
@@ -514,7 +514,7 @@ def pack_special_typing_primitive(spec: ValueSpec) -> Optional[Expression]:
             ):
                 builder = spec.builder.__class__(
                     spec.builder.cls,
-                    dialect=spec.builder.dialect,
+                    dialect=None,
                     format_name=spec.builder.format_name,
                     default_dialect=spec.builder.default_dialect,
                     attrs=method_loc,
